@@ -3,6 +3,7 @@
 package main
 
 import (
+	"github.com/reactivego/ivg/raster"
 	"fmt"
 	"image"
 	"image/color"
@@ -72,8 +73,17 @@ func splitBar(t []string) ([]string, []string) {
 	return t, nil
 }
 
-func playRenderer(r *render.Renderer, t []string) {
+func playRenderer(r *render.Renderer, t []string) { playRendererOn(r, nil, t) }
+
+// playRendererOn plays renderer tokens; "SR x0 y0 w h" is SetRasterizer(z, rect) in the middle of the script.
+func playRendererOn(r *render.Renderer, z raster.Rasterizer, t []string) {
 	for i := 0; i < len(t); {
+		if t[i] == "SR" && z != nil {
+			x0, y0, w, h := intarg(t[i+1]), intarg(t[i+2]), intarg(t[i+3]), intarg(t[i+4])
+			r.SetRasterizer(z, image.Rect(x0, y0, x0+w, y0+h))
+			i += 5
+			continue
+		}
 		j := playCall(r, t, i)
 		if j < 0 {
 			switch t[i] {
@@ -230,7 +240,7 @@ func init() {
 		z := &recRasterizer{}
 		r := &render.Renderer{}
 		r.SetRasterizer(z, rect)
-		playRenderer(r, ta)
+		playRendererOn(r, z, ta)
 		z.log = nil
 		// B may start with "SR x0 y0 w h": SetRasterizer with another rectangle before B (the fresh Renderer gets that one)
 		if len(tb) >= 5 && tb[0] == "SR" {
@@ -239,12 +249,12 @@ func init() {
 			r.SetRasterizer(z, rect)
 			tb = tb[5:]
 		}
-		playRenderer(r, tb)
+		playRendererOn(r, z, tb)
 		reused := strings.Join(z.log, " ") + fmt.Sprintf(" | cs=%d ns=%d", r.CSel(), r.NSel())
 		z2 := &recRasterizer{}
 		r2 := &render.Renderer{}
 		r2.SetRasterizer(z2, rect)
-		playRenderer(r2, tb)
+		playRendererOn(r2, z2, tb)
 		return reused + " || " + strings.Join(z2.log, " ") + fmt.Sprintf(" | cs=%d ns=%d", r2.CSel(), r2.NSel())
 	}
 
